@@ -55,7 +55,7 @@ TRUSTED_BASE = [
 ASSUMPTIONS = [
     "set-up values are multiples of 1/64 (exact in the model)",
     "feature names avoid those the reader may declare defective (aspect, "
-    "time, volume, tilt, inert_ratio_*); ml_class is never stored",
+    "time, volume, tilt, inert_ratio_*)",
     "join inputs have identical feature sets and whole-second times (the "
     "C09 join defects are not in scope here)",
 ]
@@ -375,6 +375,8 @@ def abstract(h5):
         elif nm == "temp":
             feats.append([r, 4, int(obj.shape[0]),
                           int(bool(np.allclose(obj[:], 0)))])
+        elif nm == "ml_class":
+            feats.append([r, 6, int(obj.shape[0])])
         elif nm.startswith("ml_score_"):
             v = obj[:]
             bad = False
@@ -757,13 +759,14 @@ def apply_corruption(h5, kind, p, info, scratch):
             return []
         v[len(v) // 2] = p["v"]
         _replace(ev, p["f"], v)
-        return [[3, 1, 0]]
+        # a stored ml_class (dclab-condense) is read, not recomputed
+        return [[3, 1, 0]] if "ml_class" not in ev else []
     if kind == "ml_add":
         if "ml_score_vrf" in ev:
             return []
         nn = int(n) if n is not None else 3
         ev.create_dataset("ml_score_vrf", data=np.full(nn, p["v"]))
-        return [[3, 1, 0]] if p["v"] > 1 else []
+        return [[3, 1, 0]] if (p["v"] > 1 and "ml_class" not in ev) else []
     if kind in ("temp_zero", "temp_add_zero"):
         if kind == "temp_zero":
             _replace(ev, "temp", np.zeros(ev["temp"].shape[0]))
@@ -1007,8 +1010,11 @@ def eval_case(args):
                 # not touch the same object; only independent pairs are
                 # generated for the oracle (else the expectation is dropped)
                 for s, kind, exp in expected:
-                    later = [a[0] for a in applied[s + 1:]]
-                    if later and not independent(applied[s], applied[s + 1:]):
+                    others = applied[:s] + applied[s + 1:]
+                    if others and not (
+                            independent(applied[s], others) and
+                            all(independent(o, [applied[s]])
+                                for o in others)):
                         continue
                     for e in exp:
                         met, fid = expectation_met(e, ids2, info2,
